@@ -8,6 +8,7 @@ import (
 	"strings"
 
 	"github.com/resgateio/resgate/server"
+	"github.com/resgateio/resgate/server/rescache"
 	"verif/harness/internal/absval"
 	"verif/harness/internal/gen"
 	"verif/harness/internal/gw"
@@ -33,6 +34,9 @@ type Profile struct {
 	Calls       bool
 	Clean       bool // avoid the triggers of recorded known findings
 	Throttle    int
+	Denials     bool // the access policy denies some (token, resource) pairs
+	LongRids    bool // resource ids around the control-line limit
+	Endgame     bool // finish by disconnecting every client and firing every eviction timer
 }
 
 // Explorer drives one history.
@@ -50,6 +54,7 @@ type Explorer struct {
 	reqOf       map[string]string // "c id" -> "kind rid"
 	tokens      map[string]int
 	deletedRids map[string]bool
+	pol         map[string]accessPolicy
 	steps       int
 }
 
@@ -184,16 +189,24 @@ func (x *Explorer) answerFor(q *gw.Req) gw.Action {
 			a.Text, a.Abs = `{"result":`+contentJSON(c)+`}`, "get\t"+c.Abs()
 		}
 	case "access":
+		// the access policy is a function of (token, resource) that only changes together with an announcement
+		// (reaccess event, token event, system reset): the service is consistent
+		var pl struct {
+			Token json.RawMessage `json:"token"`
+		}
+		json.Unmarshal(q.Payload, &pl)
+		pol := x.policy(string(pl.Token), rest)
 		switch {
-		case fault && x.R.Intn(3) == 0:
-			a.Err, a.Abs = "timeout", "err\tsystem.timeout"
 		case fault && x.R.Intn(2) == 0:
-			a.Text, a.Abs = `{"error":{"code":"system.accessDenied","message":"Access denied"}}`, "err\tsystem.accessDenied"
+			a.Err, a.Abs = "timeout", "err\tsystem.timeout"
 		case fault:
-			a.Text, a.Abs = `{"result":{"get":false}}`, "access\t0\t"
+			a.Text, a.Abs = `{"error":{"code":"system.internalError","message":"boom"}}`, "err\tsystem.internalError"
+		case pol.deny == 1:
+			a.Text, a.Abs = `{"error":{"code":"system.accessDenied","message":"Access denied"}}`, "err\tsystem.accessDenied"
+		case pol.deny == 2:
+			a.Text, a.Abs = `{"result":{"get":false,"call":"`+pol.call+`"}}`, "access\t0\t"+fmt.Sprintf("%x", pol.call)
 		default:
-			call := x.R.Pick("*", "*", "set,foo", "")
-			a.Text, a.Abs = `{"result":{"get":true,"call":"`+call+`"}}`, "access\t1\t"+fmt.Sprintf("%x", call)
+			a.Text, a.Abs = `{"result":{"get":true,"call":"`+pol.call+`"}}`, "access\t1\t"+fmt.Sprintf("%x", pol.call)
 		}
 	case "call", "auth":
 		switch {
@@ -234,6 +247,9 @@ func (x *Explorer) svcEvent() (gw.Action, bool) {
 		a.Ev, a.Text = "custom", `{"seq":`+strconv.Itoa(x.seq)+`}`
 		a.Abs = sn + "\tcustom\tcustom/" + strconv.Itoa(x.seq)
 	case k < 4 && x.P.Reaccess:
+		if x.P.Denials {
+			x.changePolicy(name(n))
+		}
 		a.Ev, a.Text, a.Abs = "reaccess", "", sn+"\treaccess"
 	case k < 5 && x.P.Deletes && !(x.P.Clean && (x.anyOutstanding(name(n)) || hasRefs(c))):
 		// (clean mode: no delete while a request for the resource is outstanding — recorded finding KF-P1)
@@ -293,6 +309,10 @@ func (x *Explorer) clientFrame(c *gw.Client) (gw.Action, bool) {
 		}
 	}
 	rid := name(n)
+	if x.P.LongRids && x.R.Intn(6) == 0 {
+		// a valid resource id whose event subject exceeds the messaging system's control line
+		rid = "test.long" + strings.Repeat("x", 4085+x.R.Intn(12))
+	}
 	key := c.Label + " " + rid
 	kinds := []string{"subscribe", "subscribe", "subscribe"}
 	if x.P.Unsub {
@@ -355,7 +375,7 @@ func (x *Explorer) quiesce(label string) {
 
 // Explore runs one random history and returns the run.
 func Explore(seed int64, p Profile) (run *gw.Run, stall error) {
-	x := &Explorer{R: gen.New(seed), P: p, nextID: map[string]uint64{}, outstanding: map[string]int{}, direct: map[string]int{}, reqOf: map[string]string{}, tokens: map[string]int{}, deletedRids: map[string]bool{}}
+	x := &Explorer{R: gen.New(seed), P: p, nextID: map[string]uint64{}, outstanding: map[string]int{}, direct: map[string]int{}, reqOf: map[string]string{}, tokens: map[string]int{}, deletedRids: map[string]bool{}, pol: map[string]accessPolicy{}}
 	x.Run = gw.NewRun(func(c *server.Config) {
 		c.ReferenceThrottle = p.Throttle
 		c.ResetThrottle = p.Throttle
@@ -429,10 +449,6 @@ func Explore(seed int64, p Profile) (run *gw.Run, stall error) {
 			x.tokens[c.Label] = t
 			payload := fmt.Sprintf(`{"token":{"t":%d},"tid":"tid%d"}`, t, t)
 			abs := fmt.Sprintf("token\tt%d\ttid%d", t, t)
-			if x.R.Intn(5) == 0 {
-				payload, abs = `{"token":null}`, "token\t-\t-"
-				delete(x.tokens, c.Label)
-			}
 			x.Run.Do(gw.Action{A: "connevent", C: c.Label, Ev: "token", Text: payload, Abs: abs})
 		case k < 97 && p.Resets:
 			var pats []string
@@ -451,8 +467,28 @@ func Explore(seed int64, p Profile) (run *gw.Run, stall error) {
 				payload = `{"resources":` + string(pj) + `,"access":` + string(pj) + `}`
 			}
 			// a reset announces that resources may have changed silently: mutate some truth without events first
-			if which != "access" && x.R.Intn(2) == 0 {
-				x.silentMutation()
+			if which != "access" && x.R.Intn(3) > 0 {
+				// only resources the reset announces may have changed silently
+				var matched []int
+				for i := 0; i < p.Resources; i++ {
+					for _, pt := range pats {
+						if pp := rescache.ParseResourcePattern(pt); pp.IsValid() && pp.Match(name(i)) {
+							matched = append(matched, i)
+							break
+						}
+					}
+				}
+				if len(matched) > 0 {
+					x.silentMutation(matched[x.R.Intn(len(matched))])
+				}
+			}
+			if which != "resources" && x.P.Denials {
+				for i := 0; i < p.Resources; i++ {
+					if x.R.Intn(2) == 0 {
+						x.changePolicy(name(i)) // announced by the reset when its pattern matches; a non-matching pattern leaves
+						// clients on the old verdict, which the consistent service must not do: only change matched ones
+					}
+				}
 			}
 			x.Run.Do(gw.Action{A: "sysevent", Ev: "reset", Text: payload, Abs: "reset\t" + which + "\t" + fmt.Sprintf("%x", strings.Join(pats, ","))})
 		default:
@@ -462,8 +498,43 @@ func Explore(seed int64, p Profile) (run *gw.Run, stall error) {
 		}
 		x.noteResponses(from)
 	}
-	// final: evict everything that can be evicted when all clients are gone? (left to the lifecycle profile)
 	x.quiesce("final")
+	if p.Endgame {
+		// every client leaves, everything is answered, every eviction timer fires: the cache must be empty
+		for _, c := range x.Run.W.Clients {
+			if !cClosed(x.Run, c) {
+				x.Run.Do(gw.Action{A: "disconnect", C: c.Label})
+				closed[x.Run][c.Label] = true
+			}
+		}
+		for round := 0; round < 6; round++ {
+			for i := 0; i < 400; i++ {
+				ready := x.Run.W.Ready()
+				pend := x.Run.W.MQ.Pending()
+				if len(ready)+len(pend) == 0 {
+					break
+				}
+				k := x.R.Intn(len(ready) + len(pend))
+				if k < len(ready) {
+					x.Run.Do(gw.Action{A: "grant", Text: ready[k]})
+				} else {
+					x.Run.Do(x.answerFor(pend[k-len(ready)]))
+				}
+			}
+			fired := false
+			for _, en := range x.Run.W.Serv.VerifCache().VerifEntries() {
+				if en.InEvictQueue {
+					if x.Run.Do(gw.Action{A: "evict", Subj: en.Name}) {
+						fired = true
+					}
+				}
+			}
+			if !fired && x.Run.W.Quiescent() {
+				break
+			}
+		}
+		x.quiesce("end")
+	}
 	return run, nil
 }
 
@@ -538,8 +609,7 @@ func Replay(path string) (run *gw.Run, stall error) {
 }
 
 // silentMutation changes the truth of one resource without announcing it (a reset will).
-func (x *Explorer) silentMutation() {
-	n := x.R.Intn(x.P.Resources)
+func (x *Explorer) silentMutation(n int) {
 	c := x.Truth[name(n)]
 	if c == nil {
 		return
@@ -588,4 +658,35 @@ func hasRefs(c *gw.Content) bool {
 		}
 	}
 	return false
+}
+
+type accessPolicy struct {
+	deny int // 0 grant, 1 accessDenied error, 2 get:false
+	call string
+}
+
+func (x *Explorer) policy(token, rname string) accessPolicy {
+	k := token + " " + rname
+	p, ok := x.pol[k]
+	if !ok {
+		p = accessPolicy{call: x.R.Pick("*", "*", "set,foo", "", "foo")}
+		if x.P.Denials && x.R.Intn(6) == 0 {
+			p.deny = 1 + x.R.Intn(2)
+		}
+		x.pol[k] = p
+	}
+	return p
+}
+
+// changePolicy re-draws the policy of a resource for every token; the caller announces it.
+func (x *Explorer) changePolicy(rname string) {
+	for k := range x.pol {
+		if strings.HasSuffix(k, " "+rname) {
+			p := accessPolicy{call: x.R.Pick("*", "set,foo", "", "foo")}
+			if x.R.Intn(3) == 0 {
+				p.deny = 1 + x.R.Intn(2)
+			}
+			x.pol[k] = p
+		}
+	}
 }
